@@ -223,8 +223,11 @@ class SymKernel(BaseKernel):
                 bad.append("the code's system does not force unknown %d (pinned to zero by the spec) to zero" % j)
         sub = {}
         for j in zero:
-            (m, _), = dxs[j].n.t.items()
-            sub[m[0][0]] = 0
+            terms = list(dxs[j].n.t.items())
+            # an unknown that is a plain solver symbol is substituted by 0; anything else (already 0, or an expression the
+            # code wrote into dx) is left alone
+            if len(terms) == 1 and len(terms[0][0]) == 1 and terms[0][0][0][1] == 1 and terms[0][1] == 1:
+                sub[terms[0][0][0][0]] = 0
         code0 = [P.nf(p.subs(sub)) for p in code]
         spec0 = [P.nf(p.subs(sub)) for p in spec]
         code0nz = [p for p in code0 if not p.is_zero()]
